@@ -12,7 +12,7 @@ Property text ↔ theorems:
         → `select_sound` (a non-empty selection implies a point `x` contained in the computed intervals of at
           least `minimum_agreeing_sources` eligible candidates, which are more than half of all eligible
           candidates), with `mem_elig`, `mem_agreeing`, `agreeing_ieee` spelling out what "eligible" and
-          "contains" mean; `agreeing_selected` (the agreeing candidates are in the output when nothing is NaN)
+          "contains" mean; `agreeing_selected` (the agreeing candidates are ALL in the output when nothing is NaN)
   "Sources marked unusable, unsynchronised or too uncertain never contribute to the estimate used for steering"
         → `select_members` (every selected source is one of the candidates, is synchronised and has
           radius ≤ maximum) + `C37.candidates_registered_usable` (candidates = registered ∧ usable ∧ reported)
@@ -20,7 +20,9 @@ Property text ↔ theorems:
         → `steer_needs_selection` (ctrl loop: any clock call issued while processing a source message implies
           a non-empty `select` result on the usable candidates)
   the `assert_eq!` / `cur -= 1` panic sites
-        → `select_no_panic` (no panic when every eligible interval has lo ≤ hi in the total order)
+        → `select_no_panic` (no panic when every eligible interval has lo ≤ hi in the `total_cmp` order),
+          `select_no_panic_ieee` (… or IEEE lo ≤ hi, excluding lo = +0.0 ∧ hi = −0.0), `panic_corner` (that
+          excluded pair does panic)
 -/
 import NtpVerif.Proofs.Select
 import NtpVerif.Proofs.CtrlLoop
@@ -91,22 +93,95 @@ theorem select_sound (cfg : Cfg) (cs out : List Cand) (h : select cfg cs = .sel 
       exact ⟨t, by omega, by omega⟩
   · exact absurd hc hne
 
-/-- NOT PROVED (stated only; monitored by the oracle clause `panic` on every run): `select` does not panic when
-    every eligible candidate's interval has `lo ≤ hi` in the total order.  Proof idea: `List.mergeSort_cons`
-    (stable insertion) keeps each Start before its End, so `cur` never underflows; the invariant
-    `cur = maxlow ∨ maxhigh = maxlow` together with final `cur = 0` gives `maxlow = maxhigh`. -/
-def NoPanicFull : Prop :=
-  ∀ (cfg : Cfg) (cs : List Cand),
-    (∀ c ∈ elig cfg cs, F64.totalLe (lo cfg c) (hi cfg c) = true) → select cfg cs ≠ .panic
+/-- **C03.select_no_panic** — if every eligible candidate's computed interval has `lo ≤ hi` in the `total_cmp`
+    order, `select` does not panic: the stable sort keeps every Start before its End, so `cur -= 1` never
+    underflows, and then `maxlow = maxhigh` (the `assert_eq!`) holds.  NOTE the order: `-0.0 < +0.0` in
+    `total_cmp`; a candidate with `lo = +0.0`, `hi = -0.0` (radius `-0.0`) satisfies IEEE `lo <= hi` but not this
+    hypothesis, and does make the code panic (`panic_corner`, replayed on the implementation in c03_select_edge). -/
+theorem select_no_panic (cfg : Cfg) (cs : List Cand)
+    (H : ∀ c ∈ elig cfg cs, F64.totalLe (lo cfg c) (hi cfg c) = true) : select cfg cs ≠ .panic := by
+  have hb := balanced_sorted cfg cs H 0
+  have hc := sweep_cur (sortedBounds cfg cs) Sweep.init
+  rw [show Sweep.init.cur = 0 from rfl, hb] at hc
+  cases hs : sweep (sortedBounds cfg cs) Sweep.init with
+  | none => rw [hs] at hc; cases hc
+  | some s =>
+    rw [hs] at hc
+    simp only [Option.map_some, Option.some.injEq] at hc
+    have hinv := sweep_inv2 inv2_init (by simpa using sortedBounds_pairwise cfg cs) hs
+    have heq : s.maxlow = s.maxhigh := by
+      have := hinv.peak; have := hinv.hl; omega
+    unfold select
+    simp only [hs, heq, ne_eq, not_true_eq_false, if_false]
+    split <;> simp
 
-/-- NOT PROVED (stated only): when no radius / bound / maximum is NaN, every agreeing candidate at the sweep's
-    point is a member of the output (`S ⊆ out`).  -/
-def AgreeingSelectedFull : Prop :=
-  ∀ (cfg : Cfg) (cs out : List Cand), select cfg cs = .sel out → out ≠ [] →
-    cfg.maxUnc.isNaN = false →
-    (∀ c ∈ elig cfg cs, (radius cfg c).isNaN = false ∧ (lo cfg c).isNaN = false ∧ (hi cfg c).isNaN = false) →
+/-- the same under the IEEE order, with the one exception spelled out: `lo <= hi` (IEEE, so neither is NaN) and
+    not (`lo` is `+0.0` and `hi` is `-0.0`) for every eligible candidate -/
+theorem select_no_panic_ieee (cfg : Cfg) (cs : List Cand)
+    (H : ∀ c ∈ elig cfg cs, F64.le (lo cfg c) (hi cfg c) = true ∧
+      ¬ ((lo cfg c).signBit = false ∧ (lo cfg c).mag = 0 ∧ (hi cfg c).signBit = true ∧ (hi cfg c).mag = 0)) :
+    select cfg cs ≠ .panic :=
+  select_no_panic cfg cs (fun c hc => totalLe_of_le (H c hc).1 (H c hc).2)
+
+/-- the corner: one interval with `lo = +0.0`, `hi = -0.0` — IEEE `lo <= hi` holds, but Start ≤ End fails in the sort's order, so the End bound sorts first and
+    the sweep underflows -/
+theorem panic_corner :
+    F64.le ⟨0⟩ ⟨0x8000000000000000⟩ = true ∧
+    boundLe ((⟨0⟩ : F64), BT.start) (⟨0x8000000000000000⟩, BT.stop) = false ∧
+    sweep [(⟨0x8000000000000000⟩, BT.stop), (⟨0⟩, BT.start)] Sweep.init = none := by
+  refine ⟨by decide, by decide, by decide⟩
+
+/-- **C03.agreeing_selected** — when no radius / bound of an eligible candidate and not the maximum is NaN, a
+    non-empty selection comes with a point `x` (the sweep's `maxtlow`) such that the eligible candidates whose
+    interval contains `x` are ≥ minimum, a strict majority of the eligible ones, AND all members of the output. -/
+theorem agreeing_selected (cfg : Cfg) (cs out : List Cand) (h : select cfg cs = .sel out) (hne : out ≠ [])
+    (hmu : cfg.maxUnc.isNaN = false)
+    (hnn : ∀ c ∈ elig cfg cs, (radius cfg c).isNaN = false ∧ (lo cfg c).isNaN = false ∧ (hi cfg c).isNaN = false) :
     ∃ x, cfg.minAgree ≤ (agreeing cfg cs x).length ∧ (elig cfg cs).length < 2 * (agreeing cfg cs x).length ∧
-      ∀ c ∈ agreeing cfg cs x, c ∈ out
+      ∀ c ∈ agreeing cfg cs x, c ∈ out := by
+  obtain ⟨s, hs, heq, hc | hc⟩ := select_sel_cases h
+  · obtain ⟨hmin, hmaj, hout⟩ := hc
+    have hinv := sweep_inv inv_init hs
+    simp only [List.nil_append] at hinv
+    have hinv2 := sweep_inv2 inv2_init (by simpa using sortedBounds_pairwise cfg cs) hs
+    simp only [List.nil_append] at hinv2
+    have hlen : (sortedBounds cfg cs).length = 2 * (elig cfg cs).length := by
+      rw [(sortedBounds_perm cfg cs).length_eq, length_bounds]
+    have hpos : 0 < s.maxlow := by omega
+    rcases hinv.wit with h0 | ⟨pre, suf, t, e, et, e3⟩
+    · omega
+    · have hcount := agreeing_ge cfg cs pre suf t e
+      refine ⟨t, by omega, by omega, ?_⟩
+      intro c hc
+      obtain ⟨hce, h1, h2⟩ : c ∈ elig cfg cs ∧ F64.totalLe (lo cfg c) t = true ∧ F64.totalLe t (hi cfg c) = true := by
+        unfold agreeing at hc; simpa [List.mem_filter] using hc
+      obtain ⟨hr, hl, hh⟩ := hnn c hce
+      -- t = maxtlow is the lo of an eligible candidate, maxthigh the hi of one: neither is NaN
+      have htl : (s.maxtlow, BT.start) ∈ bounds cfg cs :=
+        (sortedBounds_perm cfg cs).mem_iff.mp (hinv2.tlow hpos)
+      have hth : (s.maxthigh, BT.stop) ∈ bounds cfg cs :=
+        (sortedBounds_perm cfg cs).mem_iff.mp (hinv2.thigh (by omega))
+      obtain ⟨c1, hc1, e1⟩ := mem_bounds_start htl
+      obtain ⟨c2, hc2, e2⟩ := mem_bounds_stop hth
+      have hn1 : s.maxtlow.isNaN = false := by rw [e1]; exact (hnn c1 hc1).2.1
+      have hn2 : s.maxthigh.isNaN = false := by rw [e2]; exact (hnn c2 hc2).2.2
+      have hord := hinv2.ord heq.symm hpos
+      subst et
+      have hcs : c ∈ cs ∧ eligible cfg c = true := by unfold elig at hce; exact List.mem_filter.mp hce
+      have hel := hcs.2
+      unfold eligible at hel
+      simp only [Bool.and_eq_true, Bool.not_eq_true', Bool.or_eq_false_iff] at hel
+      obtain ⟨_, hgt, hsync⟩ := hel
+      have hsync' : c.leap.isSynchronized = true := by
+        cases hq : c.leap.isSynchronized <;> simp_all
+      rw [hout]
+      refine List.mem_filter.mpr ⟨hcs.1, ?_⟩
+      simp only [inFinal, Bool.and_eq_true]
+      refine ⟨⟨⟨?_, ?_⟩, ?_⟩, hsync'⟩
+      · exact (F64.not_lt_iff_le hmu hr).mp hgt
+      · exact le_of_totalLe (F64.totalLe_trans h1 hord) hl hn2
+      · exact le_of_totalLe h2 hn1 hh
+  · exact absurd hc hne
 
 /-- **C03.steer_needs_selection** — in `update_clock`, ANY call on the clock (disable_ntp_algorithm, step_clock /
     set_frequency from the new estimate, error_estimate_update, status_update) and any `used_sources` report
@@ -157,5 +232,9 @@ end NtpVerif.C03
 #print axioms NtpVerif.C03.agreeing_ieee
 #print axioms NtpVerif.C03.select_members
 #print axioms NtpVerif.C03.select_sound
+#print axioms NtpVerif.C03.select_no_panic
+#print axioms NtpVerif.C03.select_no_panic_ieee
+#print axioms NtpVerif.C03.panic_corner
+#print axioms NtpVerif.C03.agreeing_selected
 #print axioms NtpVerif.C03.steer_needs_selection
 #print axioms NtpVerif.C03.only_measurements_steer
